@@ -1,4 +1,4 @@
-import SSV.Proofs.Cred3
+import SSV.Proofs.Cred4
 /-
 C08 — Users are identified by key; the accepted key set tracks credential changes.
 
@@ -90,12 +90,23 @@ theorem views_agree_conc (st0 : St) (hi : Inv H st0) (ops : List Op) (acts : Lis
   let h := run_inv H acts _ (start_inv H st0 ops hi)
   ⟨views_of_inv H _ h.inv, h.inv⟩
 
-/-- file clause under concurrency, PARTIAL: in every interleaving, whenever a save is pending, the saver's
-dequeue + save leaves a file that represents the cache of that moment. NOT proved here: that at quiescence
-with nothing pending the last synchronised content represents the cache in *every interleaving* (it needs
-the extra thread-local fact "a call that changed the cache still has its `enqueueSave` ahead"); the
-sequential version is `file_tracks_cache_seq`, the concurrent one is covered by the corr engine only. -/
-theorem saved_file_represents_cache_conc_partial (st0 : St) (hi : Inv H st0) (ops : List Op) (acts : List Act) :
+/-- file clause of `views_agree_conc`: in every interleaving, at quiescence (every call returned, nothing
+pending, saver idle) the content the manager last synchronised with the store file decodes to exactly the
+listed set — no acknowledged change can be left without a save. (About `cachedContent`, i.e. what the
+manager last read or wrote; the bytes on disk differ from it only through somebody else's edit, or through
+a save that lands between a reload's read of the file and its critical section — the model has that
+schedule, and then the next reload sees a changed file.) -/
+theorem file_tracks_cache_conc (st0 : St) (hi : Inv H st0) (hs : Synced st0) (ops : List Op) (acts : List Act) :
+    let s := (Sys.start st0 ops).run H acts
+    s.quiescent → Represents s.st.cachedContent s.st.cache := by
+  intro s hq
+  have hf := run_file H acts _ (start_inv H st0 ops hi) (start_file st0 ops hs)
+  refine hf ?_ hq.2.1 hq.2.2
+  intro t ht
+  simp [owes, hq.1 t ht]
+
+/-- and whenever the saver runs with a save pending, what it writes represents the cache of that moment -/
+theorem saved_file_represents_cache_conc (st0 : St) (hi : Inv H st0) (ops : List Op) (acts : List Act) :
     let s := (Sys.start st0 ops).run H acts
     s.st.pending = true →
       (tick s.st).file = render s.st.cache ∧ Represents (tick s.st).file (tick s.st).cache := by
@@ -103,6 +114,28 @@ theorem saved_file_represents_cache_conc_partial (st0 : St) (hi : Inv H st0) (op
   have h := (run_inv H acts _ (start_inv H st0 ops hi)).inv
   rw [tick_pending s.st hp]
   exact ⟨rfl, render_represents s.st.cache h.nodup⟩
+
+/-- every schedule can be completed: running any unfinished thread strictly shortens its program, so the
+quiescent states `file_tracks_cache_conc` speaks about are reached by every fair schedule. -/
+theorem segment_progress (st : St) (t : Thread) (h : t.prog ≠ []) :
+    (seg H st t).2.prog.length < t.prog.length := by
+  have hsuf : ∀ p : List Step, (afterUnlock p).length ≤ p.length := by
+    intro p
+    induction p with
+    | nil => simp [afterUnlock]
+    | cons s r ih => unfold afterUnlock; split <;> simp <;> omega
+  rcases seg_prog H t st with e | e
+  · rw [e]
+    cases hp : t.prog with
+    | nil => exact absurd hp h
+    | cons s rest =>
+      cases s <;> simp [dropSeg]
+      have := hsuf rest
+      omega
+  · rw [e]
+    cases hp : t.prog with
+    | nil => exact absurd hp h
+    | cons s rest => simp
 
 /-- `deleted_key_rejected`: deleting a listed user is acknowledged and from then on a session under its
 key is rejected by every live store. -/
@@ -156,6 +189,30 @@ theorem duplicate_key_refused (st : St) (hi : Inv H st) (n n' : Name) (k : Key)
   have := hi.complete n' k hown
   simp [call, Op.thread, addProg, runThread, seg, runLocked, exec, touch, hn, hl, hnew, this]
 
+/-- steps that read or write the manager's maps / `cachedContent`, or publish to the live stores -/
+def guarded : Step → Bool
+  | .guardAbsent | .loadUc | .guardHashFree | .cacheSet | .cacheUpdKey | .cacheDel | .lookupSet | .lookupDelOld
+  | .lookupDelUc | .liveSet | .liveDelOldSet | .liveDelUc | .guardChanged | .guardChangedLoaded | .setCachedContent
+  | .setLookup | .setCache | .liveReplaceTcpLocal | .liveReplaceUdpLocal | .liveReplaceTcpShared | .liveReplaceUdpShared => true
+  | _ => false
+
+/-- every guarded step of `p` lies between a `lock` and the next `unlock` -/
+def insideLock : Bool → List Step → Bool
+  | _, [] => true
+  | held, s :: rest =>
+    if s = .lock then insideLock true rest
+    else if s = .unlock then insideLock false rest
+    else (held || !guarded s) && insideLock held rest
+
+/-- the two regenerated facts of DESIGN §5 C08, read off the programs: the live stores are updated, and the
+reloaded map is cloned, before the manager lock is released — in all four operations. -/
+theorem publish_inside_lock : progs.all (insideLock false) = true := by decide
+
+/-- add and update check the key's hash against the lookup map before they write it -/
+theorem duplicate_check_precedes_write :
+    (addProg.takeWhile (· ≠ .lookupSet)).contains .guardHashFree = true ∧
+    (updateProg.takeWhile (· ≠ .lookupSet)).contains .guardHashFree = true := by decide
+
 /-! ### the hypotheses are satisfiable -/
 
 def hId (k : Key) : Hash := k.id
@@ -175,6 +232,10 @@ example : k2 ≠ ⟨4, 16⟩ ∧ (⟨4, 16⟩ : Key).len = st3.pskLen ∧ find s
 example : find st3.cache "d" = none ∧ find st3.cache "a" = some k1 := by decide
 /-- a zero-byte store file is refused at registration (regenerated `loadProg` has the loaded-check) -/
 example : (call hId (fresh 16 true true .empty) .reload).2 = .errParse := by decide
+/-- a quiescent system reached by a real interleaving: add d ‖ delete a on `st3`, then the saver -/
+example : ((Sys.start st3 [.add "d" ⟨4, 16⟩, .delete "a"]).run hId
+    [.thread 0, .thread 1, .thread 0, .thread 1, .thread 0, .thread 1, .thread 0, .thread 0, .thread 1, .dequeue, .save]).quiescent := by
+  unfold Sys.quiescent; decide
 
 end SSV.C08
 
@@ -185,7 +246,11 @@ end SSV.C08
 #print axioms SSV.C08.views_agree_seq
 #print axioms SSV.C08.file_tracks_cache_seq
 #print axioms SSV.C08.views_agree_conc
-#print axioms SSV.C08.saved_file_represents_cache_conc_partial
+#print axioms SSV.C08.file_tracks_cache_conc
+#print axioms SSV.C08.saved_file_represents_cache_conc
+#print axioms SSV.C08.segment_progress
+#print axioms SSV.C08.publish_inside_lock
+#print axioms SSV.C08.duplicate_check_precedes_write
 #print axioms SSV.C08.deleted_key_rejected
 #print axioms SSV.C08.rotated_key_rejected
 #print axioms SSV.C08.duplicate_key_refused
